@@ -233,6 +233,11 @@ pub fn base_file(rng: &mut Rng) -> (String, String, Vec<u8>) {
             let mut tries = 0;
             loop {
                 let ext = *rng.pick(&EXTS[..18]);
+                if ext == "icy" && doc.font_count() > 1 {
+                    // the IcyDraw writer emits FONT chunks in hash-map order: the bytes would not be a
+                    // function of the seed. Documents with two fonts are saved in the other formats.
+                    continue;
+                }
                 let r = std::panic::catch_unwind(std::panic::AssertUnwindSafe(|| doc.to_bytes(ext, &opts)));
                 if let Ok(Ok(mut bytes)) = r {
                     if (ext == "ans" || ext == "ice") && rng.chance(1, 6) {
@@ -448,7 +453,11 @@ pub fn gen_load(prop: &'static str, rng: &mut Rng, _run: u64, _thorough: bool) -
             let other = |r: &mut Rng| -> Vec<u8> {
                 if is_buffer {
                     let d = gen_doc(r, 80, 30);
-                    d.to_bytes(*r.pick(&["ans", "xb", "bin", "tnd", "idf", "adf", "icy"]), &SaveOptions::new()).unwrap_or_default()
+                    let mut ext = *r.pick(&["ans", "xb", "bin", "tnd", "idf", "adf", "icy"]);
+                    if ext == "icy" && d.font_count() > 1 {
+                        ext = "ans";
+                    }
+                    d.to_bytes(ext, &SaveOptions::new()).unwrap_or_default()
                 } else {
                     (0..r.usize(600)).map(|_| r.byte()).collect()
                 }
